@@ -734,6 +734,12 @@ fn cmd_scenario(args: &BTreeMap<String, String>) -> i32 {
     let name = args.get("arg1").cloned().unwrap_or_default();
     let s = match name.as_str() {
         "s3" => scripted::s3(),
+        "s3_divergence" => match args.get("focus").map(|x| x.as_str()) {
+            Some("C01") => scripted::Script::with_focus(scripted::s3_divergence, "C01"),
+            Some("C03") => scripted::Script::with_focus(scripted::s3_divergence, "C03"),
+            Some("C05") => scripted::Script::with_focus(scripted::s3_divergence, "C05"),
+            _ => scripted::s3_divergence(),
+        },
         "persist_notice_after_truncation" => scripted::persist_notice_after_truncation(),
         "duplicate_forwarded_read" => scripted::duplicate_forwarded_read(),
         "stale_persist_notice_on_reelected_leader" => scripted::stale_persist_notice_on_reelected_leader(),
